@@ -149,7 +149,7 @@ def utility(draw, pal, side, idx, isothermal=None, dts=None, name=None, thirds=T
         "dt_cont": draw(dts if dts is not None else st.sampled_from([0.0, 2.5, 5.0])),
         "htc": draw(st.sampled_from([1.0, 0.5, 2.0])),
         "price": draw(st.sampled_from([0.0, 10.0, 40.0, 120.0])),
-        "active": draw(st.sampled_from([True] * 9 + [False])),
+        "active": draw(st.sampled_from([True] * 9 + [False])) if side != "Both" else draw(st.sampled_from([True, True, True, False])),
     }
 
 
